@@ -138,6 +138,14 @@ def gen(item, rng, tier):
                 rc = {'op': 'add', 'begin': cur + rng.choice([0, 0, 3, -2]), 'size': s2, 'fill': bytes(rng.getrandbits(8) for _ in range(16)).hex()}
                 cur += s2 + 3
             ops.insert(at, rc)
+    if not big and item['k'] != 'hub-long' and rng.random() < 0.25:
+        # checkpoints: the whole hub is deep-copied (twice in a row half of the time) and the copies are kept, never run; whatever the live machine -
+        # or a later copy - stores afterwards must leave every byte of every kept copy as it was when the copy was made
+        for _ in range(rng.choice([1, 2, 3])):
+            at = rng.randrange(1, len(ops))
+            ops.insert(at, {'op': 'snap'})
+            if rng.random() < 0.5:
+                ops.insert(at + rng.choice([1, 1, 2]), {'op': 'snap'})
     if item['k'] == 'hub-long':
         ops = [o for o in ops if 'addr' in o][:60]
         hot = [o for o in ops if o['path'] == 'hub'] or ops
@@ -266,7 +274,26 @@ def run(case):
 
     ticks = 0
     ctrls = list(arm.mem.memories[:len(rams)])           # parallel to model.devs / rams / len0
+    snaps = []
+
+    def snaps_intact(idx):
+        for k_, (hub, was) in enumerate(snaps):
+            now = [bytes(mc.mem.memory_array) for mc in hub.memories]
+            if now != was:
+                j = next(i for i, (x, y) in enumerate(zip(now, was)) if x != y)
+                viol.append({'oracle': 'hub.model', 'site': 'snapshot', 'cls': 'kept_copy_changed', 'tick': idx,
+                             'detail': 'checkpoint %d of the hub (made earlier, never run): device %d changed after op %d' % (k_, j, idx)})
+                return False
+        return True
     for idx, op in enumerate(case['ops']):
+        if snaps and not snaps_intact(idx):
+            break
+        if op['op'] == 'snap':
+            import copy
+            hub = copy.deepcopy(arm.mem)
+            snaps.append((hub, [bytes(mc.mem.memory_array) for mc in hub.memories]))
+            count('fault.hub-checkpoint')
+            continue
         if op['op'] in ('move', 'swap', 'add', 'remove'):
             count('fault.reconfigure-' + op['op'])
             if op['op'] == 'remove' and op['dev'] < len(ctrls) and ctrls[op['dev']] in arm.mem.memories and len(arm.mem.memories) > 2:
